@@ -50,6 +50,7 @@ func caseSet(p *an.Prog, f *ssa.Function, isClass func(ssa.Value) bool) []string
 
 func runC16(c *report.Ctx) {
 	p := c.P
+	ruleStakingPeriodFromRequest(c)
 	c.Rule("class-table", "the three readers of a script class handle exactly {WitnessV0ScriptHash, StakingScriptHash, BindingScriptHash}", 3)
 	pps := fn(c, pkgUtils, "", "ParsePkScript")
 	eai := fn(c, pkgAPI, "", "extractAddressInfos")
@@ -141,6 +142,27 @@ func runC16(c *report.Ctx) {
 				}
 			}
 			key := sk(pps) + ":sentinel-on-library-verdict"
+			// … and never for a script the library put into one of the three supported classes
+			inSupported := ""
+			for _, a := range p.GuardsOf(r) {
+				if a.Op != token.EQL || a.X == nil || a.Y == nil {
+					continue
+				}
+				cls, k := a.X, a.Y
+				if _, isK := cls.(*ssa.Const); isK {
+					cls, k = k, cls
+				}
+				kc, isK := k.(*ssa.Const)
+				if !isK || kc.Value == nil || !resultOf(gsi, 0)(cls) {
+					continue
+				}
+				if n, ok := names[kc.Value.ExactString()]; ok {
+					inSupported = n
+				}
+			}
+			if inSupported != "" {
+				c.Fail(sk(pps)+":sentinel-inside-supported-class", "ErrUnsupportedScript is returned for a script the consensus library classified as "+inSupported+" (an extra condition inside that case): every caller skips this sentinel silently, so an output of a supported template that pays the wallet — e.g. a staking script whose frozen period is outside the relay-policy range, which blocks may still contain — becomes invisible while the library and the API still show it", posOf(c, r))
+			}
 			if dom {
 				c.OK(key, "ErrUnsupportedScript is returned after txscript.GetScriptInfo classified the script", posOf(c, r))
 			} else {
